@@ -228,6 +228,21 @@ pub fn run(ctx: &Ctx) -> Verdict {
         let info = check(&cell_scenario(cell))?;
         Ok(CaseInfo { nontrivial: cell.situation != "matched" || cell.partial, classes: info.classes })
     }));
+    #[cfg(feature = "std")]
+    {
+        let mut rep = vcore::SubReport::new("partial-by-default");
+        rep.exhaustive = true;
+        for (name, r) in partial_by_default() {
+            match r {
+                Ok(()) => rep.record(&name, &CaseInfo::new(true).class("Termination::report")),
+                Err(e) => {
+                    rep.fail(&name, format!("{name}: {e}"));
+                    break;
+                }
+            }
+        }
+        v.subs.push(rep);
+    }
     let n = ctx.tier.pick(200_000, 5_000_000);
     v.subs
         .push(vcore::run_proptest(ctx, "random", n, gen::scenario(cfg(include)), check));
@@ -235,7 +250,71 @@ pub fn run(ctx: &Ctx) -> Verdict {
     v
 }
 
+/// Partial-by-default method (the bundled `Termination::report` mock): unmentioned, it runs
+/// the real behaviour (verification verdict as exit code) in strict and partial mocks alike;
+/// mentioned, the configured value is returned and the real behaviour does not run.
+#[cfg(feature = "std")]
+pub fn partial_by_default() -> Vec<(String, Result<(), String>)> {
+    use std::process::{ExitCode, Termination};
+    use unimock::mock::std::process::TerminationMock;
+    use unimock::*;
+    let code = |c: ExitCode| format!("{c:?}");
+    let mut out = vec![];
+    for partial in [false, true] {
+        for met in [false, true] {
+            // unmentioned: real report() = verdict of the other expectations
+            let name = format!("unmentioned partial={partial} expectations_met={met}");
+            let r = vcore::panics::catch(|| {
+                let clause = crate::traits::AMock::a0.each_call(&|m| m.func(|_, _| true)).returns(1u32).n_times(1);
+                let u = if partial { Unimock::new_partial(clause) } else { Unimock::new(clause) };
+                if met {
+                    use crate::traits::A;
+                    u.a0(0);
+                }
+                code(u.report())
+            });
+            let want = if met { code(ExitCode::SUCCESS) } else { code(ExitCode::FAILURE) };
+            out.push((name, match r {
+                Ok(got) if got == want => Ok(()),
+                Ok(got) => Err(format!("report() returned {got}, the real behaviour gives {want}")),
+                Err(p) => Err(format!("report() panicked instead of running the real behaviour: {p}")),
+            }));
+            // mentioned: the mocked value wins, nothing else is judged by this call
+            let name = format!("mentioned partial={partial} expectations_met={met}");
+            let r = vcore::panics::catch(|| {
+                let clause = (
+                    crate::traits::AMock::a0.each_call(&|m| m.func(|_, _| true)).returns(1u32).n_times(1),
+                    TerminationMock::report.each_call(&|m| m.func(|_, _| true)).returns(ExitCode::from(7)),
+                );
+                let u = if partial { Unimock::new_partial(clause) } else { Unimock::new(clause) }.no_verify_in_drop();
+                if met {
+                    use crate::traits::A;
+                    u.a0(0);
+                }
+                code(u.report())
+            });
+            let want = code(ExitCode::from(7));
+            out.push((name, match r {
+                Ok(got) if got == want => Ok(()),
+                Ok(got) => Err(format!("report() returned {got}, the clause configured {want}")),
+                Err(p) => Err(format!("mocked report() panicked: {p}")),
+            }));
+        }
+    }
+    out
+}
+
 pub fn replay(sub: &str, case: Value) -> Result<(), String> {
+    #[cfg(feature = "std")]
+    if sub == "partial-by-default" {
+        let name = case.as_str().unwrap_or("").to_string();
+        for (n, r) in partial_by_default() {
+            if n == name {
+                return r;
+            }
+        }
+        return Err("HARNESS: cell not found".into());
+    }
     if sub == "table" {
         for cell in table(true) {
             if serde_json::to_value(&cell).unwrap() == case {
